@@ -14,6 +14,7 @@ import Driver.C15
 import Driver.C18
 import Driver.C36
 import Driver.C33
+import Driver.C32
 open Mitum Mitum.Driver
 
 def step (line : String) : String :=
@@ -32,6 +33,7 @@ def step (line : String) : String :=
   | "C25" :: ts => stepC25 ts
   | "C29" :: ts => stepC29 ts
   | "C31" :: ts => stepC31 ts
+  | "C32" :: ts => stepC32 ts
   | "C33" :: ts => stepC33 ts
   | "C35" :: ts => stepC35 ts
   | "C36" :: ts => stepC36 ts
